@@ -14,6 +14,6 @@ if what=="thread_exc":
             if k>=2: break
 else:
     for x in f:
-        if any(what in c for p,cl in x["by_prop"].items() if p!="offpremise" for c in cl):
+        if any(what in c for p,cl in x["by_prop"].items() for c in cl):
             print(json.dumps(x["task"])); print(x["clauses"]); r=x["rec"]; print(r["outcome"], r.get("exc_type"), r.get("exc_repr"), r["alive_at_return"], r["leaked"], r["events_after_return"]); print([ (e["ev"],e.get("n"),e["th"],e.get("site")) for e in r["events"]]); k+=1
             if k>=2: break
